@@ -9,6 +9,20 @@
    (9 3 order mode wi src arg k)   matrix iterators; order 0 column 1 row 2 column-major 3 row-major
                                    4 diagonal; mode 0 copy 1 reference 2 mutable 3 owned;
                                    src: (0 rows cols data) | (1 src (rs rl) (cs cl)) range | (2 src rr rc) reverse
+   (9 5 kind wi term k)            tensor iterators over ANY view of the C02 algebra (term language and
+                                   generators of tools/props/c02.py: TensorIndex, TensorExpansion, TensorStack,
+                                   TensorChain, wrappers, matrix-backed leaves, convenience constructors);
+                                   kinds 2, 3 only over views with a mutable face; every leaf is dumped afterwards
+   (9 6 order mode wi rows cols data leaf wrappers arg k)
+                                   matrix iterators over a stack of C12 matrix views (leaf / wrappers of
+                                   tools/props/c12.py: the matrix, partition parts, quadrants; ranges, reversals,
+                                   tensor round trips), the root matrix is dumped afterwards
+   (9 7 script op args..)          one of the ops 1, 2, 3, 5, 6 with the iterator driven by a SCRIPT over the provided
+                                   Iterator methods a type may override instead of k calls of next():
+                                   (0 n) nth(n) | (1 n) by_ref().skip(n).next() | (2 k j) by_ref().step_by(k).take(j).collect()
+                                   | (3 j) by_ref().take(j).collect() | (4) count() | (5) last() | (6) fold; len() and
+                                   size_hint() after every non-terminal step; scripts jump in range, exactly to the last
+                                   element, exactly past the end and far past the end, then keep calling next()
    Results: length before the first call, then per call (item, length after); k runs to n+3 so that
    every prefix and three calls after exhaustion are observed; for mutable / owning iterators every
    prefix length k is a separate case and the source's data afterwards is compared."""
@@ -153,8 +167,219 @@ def miter_cases(src, rng, all_k_mut=True):
                         yield sx([9, 3, order, mode, wi, src, arg, k])
 
 
+def over_view_cases(rng, quick):
+    """(9 5 kind wi term k): every single adaptor of the C02 algebra incl. TensorIndex / TensorExpansion /
+    stack / chain / wrappers / convenience constructors over small leaves, random compositions to depth 4"""
+    from tools.props import c02
+    terms = []
+    for lens in ([], [3], [2, 3], [2, 2], [2, 1, 2]):
+        base = c02.leaf(1, lens)
+        pool = list(c02.single_adaptors(base, base[2], rng, [0, 1, 2], False))
+        pool += list(c02.stack_chain(base, base[2], rng, [c02.leaf(2, [l + 1 for l in lens])]))
+        per_kind = {}
+        for t in pool:
+            per_kind.setdefault(t[0], []).append(t)
+        for kind, lst in per_kind.items():
+            for t in rng.sample(lst, min(len(lst), 8 if quick else 50)):
+                terms.append(t)
+                for tv in c02.via_variants(t):
+                    if rng.random() < 0.3:
+                        terms.append(tv)
+    for _ in range(700 if quick else 7000):
+        terms.append(c02.random_term(rng, rng.choice([1, 2, 2, 3, 4]), [1]))
+    # matrix-backed leaves under the adaptors
+    for _ in range(60 if quick else 600):
+        r, c = rng.randrange(1, 4), rng.randrange(1, 4)
+        m = [12, 1, r, c, 0, 1]
+        t = rng.choice([m, [6, m, [rng.choice([0, 1])]], [8, m, [1, 0]], [3, m, [[0, rng.randrange(r)]]],
+                        [4, m, [[rng.randrange(3), 5]]], [9, [m, [12, 2, r, c, 0, 1]], rng.randrange(3), 7, 0],
+                        [10, [m, [12, 2, r + 1, c, 0, 1]], 0, 0]])
+        terms.append(t)
+    for t in terms:
+        if not c02.well_typed(t):
+            continue
+        t = c02.renumber(c02.unify_families(t), [0])
+        sh = c02.pshape(t)
+        shared = c02.is_shared(t)
+        if sh is None:
+            if rng.random() < 0.15:
+                yield sx([9, 5, rng.choice([0, 1] if shared else [0, 1, 2, 3]), rng.randrange(2), t, 3])
+            continue
+        n = 1
+        for _, l in sh:
+            n *= l
+        if n > 60:
+            continue
+        kinds = [0, 1] if shared else [0, 1, 2, 3]
+        for kind in (kinds if n <= 6 else rng.sample(kinds, 2)):
+            for wi in ((0, 1) if n <= 6 else (rng.randrange(2),)):
+                if kind in (2, 3):
+                    ks = range(0, n + 4) if n <= 4 else sorted({0, rng.randrange(0, n + 1), n, n + 3})
+                else:
+                    ks = [n + 3]
+                for k in ks:
+                    yield sx([9, 5, kind, wi, t, k])
+
+
+MWRAPPERS = [[0, 0, 9, 0, 9], [0, 1, 2, 0, 2], [0, 0, 1, 1, 5], [0, 5, 1, 0, 3], [0, 0, 2, MAXU, 1], [1, 0, 2, 1, 3],
+             [1, 2, 1, 0, 9], [2, 1, 0], [2, 0, 1], [2, 1, 1], [3, 0, 1], [3, 2, 2], [4]]
+
+
+def mview_iter_cases(rows, cols, leaf, ws, rng, per_source):
+    """a sample of (order, mode, wi, arg, k) over one stack; k covers the whole iteration plus three
+    calls for the shared modes, a random prefix for the mutable / owning ones"""
+    data = [100 + 10 * r + c for r in range(rows) for c in range(cols)]
+    combos = []
+    for order in range(5):
+        modes = (0, 1, 2, 3) if order in (2, 3) else (0, 1, 2)
+        wis = (0, 1) if order in (2, 3) else (0,)
+        for mode in modes:
+            for wi in wis:
+                combos.append((order, mode, wi))
+    for order, mode, wi in (combos if per_source is None else rng.sample(combos, per_source)):
+        n = rows * cols
+        arg = rng.randrange(0, max(rows, cols) + 2) if order in (0, 1) else 0
+        k = n + 3 if mode in (0, 1) else rng.randrange(0, n + 4)
+        yield sx([9, 6, order, mode, wi, rows, cols, data, leaf, ws, arg, k])
+
+
+def over_mview_cases(rng, quick):
+    """(9 6 ...): every leaf kind (matrix, each part of each partition with at most one cut per axis,
+    quadrants) under no wrapper or one wrapper of a small alphabet for sizes <= 3x3 (sampled in the quick
+    tier), random stacks to depth 4 over random leaves incl. rejected partitions and refused wrappers"""
+    from tools.props import c12
+    for rows in range(1, 4):
+        for cols in range(1, 4):
+            leaves = [[0]]
+            for rp in [[]] + [[i] for i in range(rows + 1)]:
+                for cp in [[]] + [[j] for j in range(cols + 1)]:
+                    for j in range((len(rp) + 1) * (len(cp) + 1)):
+                        leaves.append([1, rp, cp, j])
+            for j in range(4):
+                leaves.append([2, rng.randrange(rows + 1), rng.randrange(cols + 1), j])
+            for leaf in leaves:
+                for ws in [[]] + [[w] for w in MWRAPPERS]:
+                    if leaf == [0] and not ws:
+                        yield from mview_iter_cases(rows, cols, leaf, ws, rng, None)
+                    elif rng.random() < (0.3 if quick else 1.0):
+                        yield from mview_iter_cases(rows, cols, leaf, ws, rng, 3 if quick else 8)
+    for _ in range(700 if quick else 6000):
+        rows, cols = rng.randrange(1, 6), rng.randrange(1, 6)
+        depth = rng.choice([1, 2, 2, 3, 3, 4])
+        ws = [c12.rand_wrapper(rng) for _ in range(depth)]
+        yield from mview_iter_cases(rows, cols, c12.rand_leaf(rng, rows, cols), ws, rng, 5)
+
+
+def scripts_for(n, rng, count):
+    """scripts for an iterator of n items: deliberate boundary scripts first, then random ones"""
+    nx = [0, 0]
+    fixed = [
+        [[0, n]] + [nx] * 3,                          # nth(n): exactly past the end, then next() x3
+        [[0, max(n - 1, 0)]] + [nx] * 2,              # the last element, then next()
+        [[0, n + 3], nx, [0, 1], nx],                 # far past the end
+        [[1, n], nx, nx],                             # by_ref().skip(n).next()
+        [[0, 0], [1, max(n - 2, 0)], nx, nx],
+        [[2, 2, n + 2], nx, nx],                      # step_by(2) to the end
+        [[3, max(n - 1, 0)], [3, 3], nx],             # take
+        [[3, 1], [4]], [[0, 0], [5]], [[1, 1], [6]], [[4]], [[5]], [[6]],
+        [[0, n // 2], [2, 3, 2], [0, 0], [4]],
+    ]
+    out = []
+    for sc in fixed:
+        if rng.random() < count / len(fixed):
+            out.append(sc)
+    for _ in range(max(1, count // 3)):
+        sc = []
+        for _ in range(rng.randrange(1, 6)):
+            t = rng.randrange(8)
+            if t < 3:
+                sc.append([0, rng.choice([0, 0, 1, 2, n, n + 1, rng.randrange(0, n + 3)])])
+            elif t < 5:
+                sc.append([1, rng.choice([0, 1, 2, n, rng.randrange(0, n + 3)])])
+            elif t < 6:
+                sc.append([2, rng.randrange(1, 4), rng.randrange(0, 5)])
+            else:
+                sc.append([3, rng.randrange(0, n + 2)])
+        sc += [nx] * rng.randrange(0, 3)
+        if rng.random() < 0.4:
+            sc.append([rng.choice([4, 5, 6])])
+        out.append(sc)
+    return out
+
+
+def script_cases(rng, quick):
+    """(9 7 script inner..): every iterator family under scripts of the provided methods"""
+    from tools.props import c02, c12
+    per = 5 if quick else 12
+    def wrap(inner, n):
+        for sc in scripts_for(n, rng, per):
+            yield sx([9, 7, sc] + inner)
+    # ShapeIterator: D = 0, zero lengths, small shapes
+    for lens in ([], [0], [1], [3], [2, 0], [2, 2], [1, 3], [2, 1, 2], [3, 2], [2, 2, 2], [1, 1, 1, 1], [2, 1, 1, 2, 1, 1]):
+        yield from wrap([1, tshape(lens), 0], elements(lens))
+    # tensor iterators over source terms (all four kinds, WithIndex)
+    for lens in ([], [1], [3], [2, 2], [2, 3], [2, 1, 2]):
+        base = tbase(lens)
+        srcs = [base] + [random_view(base, rng, rng.choice([1, 2])) for _ in range(2 if lens else 0)]
+        for src in srcs:
+            n = elements(src_shape(src)[1])
+            for kind in range(4):
+                for wi in (0, 1):
+                    if quick and rng.random() < 0.4:
+                        continue
+                    yield from wrap([2, kind, wi, src, 0], n)
+    # matrix iterators over source terms
+    for r, c in ((1, 1), (1, 3), (2, 2), (3, 2)):
+        for src in (mbase(r, c), [1, mbase(r, c), [0, r], [1, c]], [2, mbase(r, c), 1, 0], [1, mbase(r, c), [r, 1], [0, c]]):
+            vr, vc = msize(src)
+            for order in range(5):
+                modes = (0, 1, 2, 3) if order in (2, 3) else (0, 1, 2)
+                wis = (0, 1) if order in (2, 3) else (0,)
+                n = {0: vr, 1: vc, 2: vr * vc, 3: vr * vc, 4: min(vr, vc)}[order]
+                for mode in modes:
+                    for wi in wis:
+                        if rng.random() < (0.25 if quick else 0.8):
+                            yield from wrap([3, order, mode, wi, src, 0, 0], n)
+    # tensor iterators over C02 view terms
+    terms = []
+    for lens in ([], [3], [2, 2]):
+        base = c02.leaf(1, lens)
+        pool = list(c02.single_adaptors(base, base[2], rng, [0, 1, 2], False))
+        pool += list(c02.stack_chain(base, base[2], rng, [c02.leaf(2, [l + 1 for l in lens])]))
+        terms += rng.sample(pool, min(len(pool), 25 if quick else 120))
+    for t in terms:
+        if not c02.well_typed(t):
+            continue
+        t = c02.renumber(c02.unify_families(t), [0])
+        sh = c02.pshape(t)
+        if sh is None:
+            continue
+        n = 1
+        for _, l in sh:
+            n *= l
+        if n > 12:
+            continue
+        kinds = [0, 1] if c02.is_shared(t) else [0, 1, 2, 3]
+        yield from wrap([5, rng.choice(kinds), rng.randrange(2), t, 0], n)
+    # matrix iterators over C12 view stacks
+    for _ in range(60 if quick else 500):
+        rows, cols = rng.randrange(1, 4), rng.randrange(1, 4)
+        ws = [c12.rand_wrapper(rng) for _ in range(rng.choice([0, 1, 1, 2]))]
+        leaf = c12.rand_leaf(rng, rows, cols)
+        data = [100 + 10 * r + c for r in range(rows) for c in range(cols)]
+        order = rng.randrange(5)
+        mode = rng.randrange(4 if order in (2, 3) else 3)
+        wi = rng.randrange(2) if order in (2, 3) else 0
+        yield from wrap([6, order, mode, wi, rows, cols, data, leaf, ws, rng.randrange(0, 3), 0], rows * cols)
+
+
 def gen(tier, rng):
     quick = tier == "quick"
+    # ---- scripts over the provided Iterator methods (op 7)
+    yield from script_cases(rng, quick)
+    # ---- iterators over the view algebras of C02 / C12 as sources (ops 5, 6)
+    yield from over_view_cases(rng, quick)
+    yield from over_mview_cases(rng, quick)
     # ---- ShapeIterator: every shape with lengths 0..3, D <= 4 (zero lengths included)
     for D in range(0, 5):
         for lens in itertools.product(range(0, 4), repeat=D):
@@ -298,7 +523,7 @@ def gen(tier, rng):
 
 def nontrivial(case, model_out):
     """the iteration yields at least two items (or is a rejected constructor / an empty source)"""
-    return model_out.count("((") >= 2 or model_out.startswith("(2)") or model_out.startswith("(1") or " () " in model_out or "(())" in model_out
+    return model_out.count("((") >= 2 or model_out.startswith("(2)") or model_out.startswith("(1") or " () " in model_out or "(())" in model_out or "(() 0)" in model_out or case.startswith("(9 7")
 
 
 def distribution(lines):
